@@ -753,4 +753,29 @@ def rule_m(ctx: Ctx) -> None:
                 "(operand of and/or/not, if-test, element of the comprehension); XsdSimpleType.is_empty compares the members with ''.")
 
 
-RULES = [rule_a, rule_b, rule_c, rule_d, rule_e, rule_f, rule_g, rule_h, rule_i, rule_j, rule_k, rule_l, rule_m]
+def rule_n(ctx: Ctx) -> None:
+    """fractionDigits / totalDigits count *significant* digits, so every spelling of zero counts (0, 0).  str(Decimal) switches to exponent notation for
+    small values - Decimal('0.0000000') is '0E-7' - and the exponent arithmetic of count_digits (digits minus exponent) is meaningless for an all-zero
+    significand: the branch needs a zero test before it computes."""
+    rule = 'C02.n'
+    f = ctx.idx.func('xmlschema.utils.decoding.count_digits')
+    ctx.analysed(f.qualname)
+    g = cfg_of(ctx, f)
+    rets = [r for r in g.nodes if r.kind == 'return' and r.ast.value is not None]
+    arith = [r for r in rets if any(isinstance(x, ast.Name) and x.id == 'exponent' for x in ast.walk(r.ast.value))]
+    ctx.floor(rule, 'returns of count_digits computed from the exponent', len(arith), 2)
+    zero = [r for r in rets if isinstance(r.ast.value, ast.Tuple) and all(isinstance(e, ast.Constant) and e.value == 0 for e in r.ast.value.elts)]
+    guards_ok = []
+    for z in zero:
+        gs = guards(ctx, f, z)
+        if any(lab == 'T' and 'significand' in t for t, lab in gs) or any(lab == 'F' and 'significand' in t for t, lab in gs):
+            guards_ok.append(z)
+    # the arithmetic returns are reached only when the zero test was made and failed
+    tested = bool(guards_ok) and all(any('significand' in t for t, lab in guards(ctx, f, a)) for a in arith)
+    ctx.ob(rule, 'count_digits: the exponent arithmetic is reached only after an all-zero significand was answered (0, 0)', f.loc(arith[0].ast) if arith else f.loc(), tested,
+           '' if tested else "no zero test on the stripped significand before `num_digits - exponent - 1`: Decimal('0.0000000') is '0E-7' and counts 6 fraction digits - "
+           "<d>0.0000000</d> is rejected by fractionDigits=2 although 0.00 and 1.0000000 are accepted", key='count_digits|zero-significand')
+    ctx.explain('C02.n: in utils.decoding.count_digits a `return 0, 0` guarded by a test on `significand` exists and both returns that use `exponent` are control dependent on that test.')
+
+
+RULES = [rule_a, rule_b, rule_c, rule_d, rule_e, rule_f, rule_g, rule_h, rule_i, rule_j, rule_k, rule_l, rule_m, rule_n]
